@@ -112,6 +112,13 @@ def run_case(ctx, rng, ci, names):
     import numpy as np
     F = rng.choice([1, 2, 2, 3])
     precise = rng.random() < 0.4
+    # rapid-update cycles: runs of the same day/week/month that differ in their minutes still form one slice
+    subhourly = rng.random() < 0.3
+    subtimes = None
+    if subhourly:
+        t0 = gen.pick_times(rng, 1)[0]
+        step = rng.choice([900, 1800, 5400, 86400 + 1800, 2 * 86400 + 900])
+        subtimes = [t0 + j * step for j in range(rng.randint(3, 5))]
     pool = gen.LOC_POOL
     if precise:
         # station ids and coordinates with more than six significant digits (text files keep them exactly)
@@ -121,7 +128,8 @@ def run_case(ctx, rng, ci, names):
         ds = gen.make_dataset(rng, n_inputs=F, prob=True, ens=False, pit=True, miss=rng.choice([0.0, 0.1]), sparse=0.0,
                               thresholds=[0.0, 5.0, 10.0], quantiles=[0.25, 0.5, 0.75], max_t=4, max_l=4, max_s=3, vrange=(0, 14),
                               fmt=("text" if precise else None),
-                              leadtime_pool=([0, 6, 12, 101325.5, 24, 1.5] if precise else None))
+                              leadtime_pool=([0, 6, 12, 101325.5, 24, 1.5] if precise else None),
+                              times=subtimes)
     finally:
         gen.LOC_POOL = pool
     d = os.path.join(ctx.workdir, "c%d" % ci)
@@ -142,6 +150,10 @@ def run_case(ctx, rng, ci, names):
         file_names = [os.path.basename(q) for q in paths]
         ctx.count("same_basename_families")
     times, leads, locs = refmodel.common_dims(ds)
+    if subhourly:
+        ctx.count("subhourly_families")
+        if len(set(refmodel.bucket("week", t=t) for t in times)) < len(set((refmodel.bucket("week", t=t), t % 3600) for t in times)):
+            ctx.count("subhourly_families_with_runs_of_one_week_at_different_minutes")
     for rep in range(8):
         name = rng.choice(names)
         kind = needs(name)
@@ -313,6 +325,10 @@ def run_case(ctx, rng, ci, names):
             desc = [[refmodel.fmt_time_label(axis, lab)] for lab in refmodel.slice_labels(ds, axis)]
         else:
             desc = [[lab] for lab in refmodel.slice_labels(ds, axis)]
+        if desc is not None and axis != "dayofyear" and axis not in ("threshold", "obs", "fcst") and len(rows) != len(desc):
+            # one row per slice of the documented partition (computed from the inputs, not from verif's own axis values)
+            ctx.violation("row-count-vs-partition|%s|%s" % (otype, axis),
+                          "verif <files> %s: %d rows, the inputs have %d slices along %s" % (" ".join(argv), len(rows), len(desc), axis), case)
         if desc is not None and axis != "dayofyear":
             for i, row in enumerate(rows):
                 if i >= len(desc):
